@@ -136,7 +136,7 @@ def _strategy(mode):
             if mode == "tight":
                 N = 1
             case = {"Dx": Dx, "Dy": Dy, "Da": Da, "Dk": Dk, "N": N, "kind": kind, "mode": mode,
-                    "c": draw(gen.het_params(kind, Dx, Dy, Da, Dk, wscale=1.0 if mode == "tight" else ws)),
+                    "c": draw(gen.het_params(kind, Dx, Dy, Da, Dk, wscale=1.0 if mode == "tight" else ws, big_offsets=(mode != "coherence"))),
                     "px": {"Sigma": draw(gen.spd(N, Dx, kappa=8.0, lam_lo=0.2, lam_hi=0.5)), "mu": draw(gen.arr((N, Dx), -1.5, 1.5))},
                     "y": draw(gen.arr((N, Dy), -2.5, 2.5)), "x": draw(gen.arr((3, Dx), -2, 2))}
             return case
@@ -285,11 +285,10 @@ def _run_tight(case):
         if ok:
             lbv, _ = r
             Dk = W0.shape[0]
-            S0 = A @ A.T + A[:, :Dk] @ np.diag(_link(kind, W0[:, 0])) @ A[:, :Dk].T
-            L = oracle.inv_spd(S0[None])[0]
             e = y - M @ mu - b
-            ld, lds = oracle.slogdet_spd(S0[None])
-            tv = -0.5 * (e @ L @ e + np.trace(L @ M @ Sig @ M.T) + ld[0] + len(y) * oracle.LN2PI)
+            # (Woodbury-stable evaluation: the noise of a unit with a large offset spans many orders of magnitude)
+            quad, logdet = _gauss_terms(kind, A, Dk, W0[:, 0][None], e[None], extra_cov=M @ Sig @ M.T)
+            tv = -0.5 * (quad[0] + logdet[0] + len(y) * oracle.LN2PI)
             check(fails, f"tight[{kind}]:zero_weight_gap", lbv, tv, 1.0 + abs(tv), tol=1e-7, **kf)
     gaps = {}
     for eps in (1e-1, 1e-2, 1e-3):
